@@ -97,7 +97,7 @@ int main(int argc, char** argv) {
          lagmiss = lag;
          w.i("reconversion_passes", passes).i("contracts", lag);
          o.cell("pole:right-smuon|" + order + (lag ? "|yukawa-lag" : "|MISS"), m.dsm / prec, &w);
-         o.fail(lag ? "C05:smuonR-pole:yukawa-lag" : "C05:pole:right-smuon", "right-like smuon pole mass missed by " + vh::num(m.dsm) + " GeV (precision " + vh::num(prec) + ") without warning", w);
+         o.fail(lag ? "C05:smuonR-pole:yukawa-lag" : "C05:pole:right-smuon", "right-like smuon pole mass missed by " + vh::num(m.dsm) + " GeV (precision " + vh::num(prec) + ") without warning", w, m.dsm / m.msm);
       } else o.cell("pole:right-smuon|" + order, m.dsm / prec, &w);
       // (b) recovery of the on-shell parameters on the well-conditioned subset
       const double rec = std::max({std::fabs(B.get_Mu() / mu - 1), std::fabs(B.get_MassB() / m1 - 1), std::fabs(B.get_MassWB() / m2 - 1), std::fabs(std::sqrt(std::fabs(B.get_ml2(1, 1))) / ml[1] - 1), std::fabs(std::sqrt(std::fabs(B.get_me2(1, 1))) / me[1] - 1)});
